@@ -1175,6 +1175,9 @@ func (m *metadataAPI) ResumePartition(streamName string, id int32, recovered boo
 	if err != nil {
 		return nil, err
 	}
+	// The partition is no longer paused: also reset the protobuf value (used
+	// for snapshotting), which the replacement shares with the old partition.
+	partition.Paused = false
 	// Update latest pause status change timestamp.
 	partition.pauseTimestamps.update()
 
